@@ -164,6 +164,14 @@ def run(tier, seed):
         "samples": [" ".join("%s:%s" % x for x in w) for w in wl[:12]],
         "word_frequencies": {" ".join("%s:%s" % x for x in w): c for w, c in words.most_common(20)},
     }
+    # design level, liveness (WriteBehind.tla under weak fairness of worker, start-up and flush caller)
+    import crashengine as _ce
+    _lv = v.run_tlc("MCWriteBehind", "MCWriteBehind_live.cfg", rd, workers=4, timeout=1200, coverage=False, xmx="8g")
+    v.tlc_ok(_lv, "MCWriteBehind(live)")
+    if _lv.violation:
+        viol = viol + [{"what": "model: flush() does not terminate (%s)" % _lv.violation, "replay": v.save_replay("c18", "mc_live.out", _lv.out[-6000:]), "key": "mc live"}]
+    cov["liveness_states"] = _lv.distinct
+    _ce.mc_model(rd, "MCWriteBehind", "MCWriteBehind_mut_FlushGivesUp.cfg", workers=2, expect_violation=True, timeout=600)
     return {"level": "model_checking", "coverage": cov, "violations": viol,
             "assumptions": ["lock requests and releases are logged by the lock types themselves (verif::locks wrappers around parking_lot, tied to the real guards); locks outside the store / write-buffer modules (cache buckets, record value cells, hash bucket guards) are not logged",
                             "channels (bounded worker queues, response channels) are not part of the skeleton; "
